@@ -25,6 +25,7 @@ type Clause struct {
 	Name   string // let name
 	Loop   int
 	Cond   ast.Expr // modifies ... if COND (evaluated in the pre-state)
+	NoAssume bool   // check_at: proved where stated, not assumed afterwards
 	File   string
 	Line   int
 }
@@ -376,9 +377,11 @@ func parseContracts(path, pkgPath string, external bool) ([]*Contract, map[strin
 					}
 					cur.ReplayFields[strings.TrimSpace(txt[:j])] = strings.TrimSpace(txt[j+1:])
 				}
-			case "assert_at":
+			case "assert_at", "check_at":
 				// assert_at "source text" expr : expr must hold just before the
-				// first instruction of the line containing the text
+				// first instruction of the line containing the text (and is
+				// assumed from there on); check_at: the same, but not assumed
+				// afterwards (keeps later obligations small)
 				txt := rest(k + 1)
 				if !strings.HasPrefix(txt, "\"") {
 					return nil, nil, fmt.Errorf("%s:%d: assert_at needs a quoted marker", path, i+1)
@@ -388,7 +391,7 @@ func parseContracts(path, pkgPath string, external bool) ([]*Contract, map[strin
 					return nil, nil, fmt.Errorf("%s:%d: assert_at: unterminated marker", path, i+1)
 				}
 				marker := txt[1 : 1+j]
-				last = &Clause{Kind: "assert_at", Name: marker, Text: strings.TrimSpace(txt[j+2:]), Canary: canary, File: path, Line: i + 1}
+				last = &Clause{Kind: "assert_at", Name: marker, Text: strings.TrimSpace(txt[j+2:]), Canary: canary, File: path, Line: i + 1, NoAssume: f[k] == "check_at"}
 			case "replay_import":
 				cur.ReplayImports = append(cur.ReplayImports, f[k+1:]...)
 			case "loop":
